@@ -72,6 +72,9 @@ func genC10(r *mrand.Rand, id string) c10Case {
 		if len(c) == 0 {
 			c = []byte("x")
 		}
+		if r.Intn(12) == 0 {
+			c = []byte{} // a body part without content is a body part
+		}
 		return c
 	}
 	for i := 0; i < np; i++ {
